@@ -3,6 +3,7 @@ from __future__ import annotations
 
 import itertools
 import json
+import os
 import random
 from concurrent.futures import ThreadPoolExecutor
 from unittest import mock
@@ -15,7 +16,7 @@ from .core import Ctx, read_dump, write_ndjson, trace_verdict, pmap, NCPU
 from .c06 import tokenize
 sys_path_done = False
 import sys
-sys.path.insert(0, "/repo/src")
+sys.path.insert(0, os.environ.get("VERIF_REPO", "/repo") + "/src")
 from xlate.c7n_to_cel import C7N_Rewriter  # noqa: E402
 import celpy.c7nlib as c7nlib  # noqa: E402
 
